@@ -47,7 +47,7 @@ CLAIMED = {
             "program logic with crash condition over the world model, for all oracles; prefix-closed simulation invariant; crash-point enumeration against the model + recovery monitor"),
     "C04": ("Theorems for EVERY oracle (any failing calls, short transfers, a crash at any call): a timeout pass, an exec or write event (including a configuration reload), a restart, "
             "and whole histories of events change or remove no file of the store or project store (same name, same inode, same bytes), and the invariant is re-established so the statement chains; "
-            "candidate names are base, -1, -2, ... for every k. Tie: histories with up to 12 versions in one timestamp and pre-seeded names, monitors 'no store file changes or disappears' and "
+            "candidate names are base, -1, -2, ... for every k; world level (benign oracles): when the first k candidates are taken the new version is created at the k-th and none of the k entries is touched. Tie: histories with up to 12 versions in one timestamp and pre-seeded names, monitors 'no store file changes or disappears' and "
             "'first free name'; thorough: every crash point and single fault.",
             NOTE + "Hypotheses: the six configured locations pairwise non-nested; offset files and the journal share no inode with store files (both re-established by every operation). 'First free name' itself is judged by the monitor.",
             "program logic with crash condition (preservation relative to the initial file system, for all oracles); world correspondence + monitors"),
@@ -56,7 +56,7 @@ CLAIMED = {
             "directories on the destination chain that are empty without it disappear. Tie: sizes around the page and 70000 bytes, chunk limits, and every way the source changes before the copy, with real EACCES.",
             NOTE + "Source not modified during the copy (single-threaded model).", "loop invariant over the sendfile loop for all oracles of the benign class; world correspondence + monitors"),
     "C08": ("Theorems: each pass stores exactly the bytes from the remembered position on and returns the new position (any chunking); over any append-only growth the slices concatenate to the file "
-            "(no byte missing or duplicated); the position round-trips through its decimal file and a torn write only rewinds. Tie: append histories with restarts and every single fault in copy and position update.",
+            "(no byte missing or duplicated); the position round-trips through its decimal file and a torn write only rewinds; world level (benign oracles): one pass over a due history head creates exactly one version = the source from the remembered position on and leaves the file's length as the new position; over a chain of passes the k-th version is the k-th slice and they concatenate to the last content. Tie: append histories with restarts (also a history path inside a project), the position file round-trips every value up to 2^64-1, every single fault in copy and position update.",
             NOTE + "Known finding K1: a fault inside the position update duplicates the slice after the restart (at-least-once).", "induction over append histories + decimal codec lemmas; world correspondence + history monitor"),
     "C10": ("Theorems: catch only at depth 0 and errors never dropped by finally/try; every call confined under any number of faults. World level, for EVERY oracle, one iteration of the pass over a file head: "
             "a failed call of the copy in the reported class ends the iteration with the error on the trace and the stop result; then no unlinkat was issued and every existing file and link (the head's queue link included) "
@@ -75,8 +75,8 @@ CLAIMED = {
             NOTE + "That the unstable tree holds the latest versions is the file branch's job (tied by correspondence). No symbolic links inside projects (the model's access() does not follow a dangling link).",
             "program logic over the inode-level file system for both fts orders; world correspondence + project monitor"),
     "C19": ("Theorems: line format (empty timestamp/label omitted with their tab, pid omitted when 0), exactly one newline, any positive chunking of the write appends exactly the line once, a labelled "
-            "event appends exactly its line and nothing else changes, unlabelled events / no journal do nothing. Tie: all label choices, timestamp patterns including the empty one, short writes, journal monitor.",
-            NOTE, "induction over the write loop for all chunkings; world correspondence + journal monitor"),
+            "event appends exactly its line and nothing else changes, unlabelled events / no journal do nothing; handler level, whole histories of exec / write / timeout events: the journal is only appended to (EVERY oracle), and for oracles that only cut writes the appended part is a concatenation of whole lines, one per labelled event, with the label selected by the event kind and the writer's status and the stamp of the event's clock. Tie: all label choices, timestamp patterns including the empty one, short writes (one call / every write of an operation), reloads that change the stamp pattern, journal monitor (append-only whole lines, stamp in force, event path as last field).",
+            NOTE + "Effective reloads are outside the history theorems (single-event results only). Hypothesis: no name below the offset root leads to the journal inode (necessary: refuted without it).", "induction over the write loop for all chunkings; invariant over event histories for all oracles; world correspondence + journal monitor"),
     "C20": ("Theorems for every oracle: a timeout pass, an exec event and any sequence of events release every descriptor they acquire (count from the call log: opens that returned a descriptor minus closes); "
             "loading acquires exactly what the handler holds and releasing gives it back; a whole session returns the count to its start; with reloads the count moves with what the handler holds. "
             "Heap: measured on the real code (wrapped allocator): one mixed round repeated 1, 10, 100 times ends with identical live-block and descriptor counts, 0 after release; 2 descriptors after every operation.",
@@ -84,9 +84,9 @@ CLAIMED = {
             "call-log counting judgement for all oracles; measurement on the implementation + correspondence"),
     "C07": ("Theorems: the pid table is a set for process ids of any magnitude and any initial size (marked iff the last operation was a set); after any sequence of execution events the table "
             "marks exactly the processes the property's wording calls editors and the recorded loaders are the interpreters of the editor binaries seen; non-editor writes are queued only when an "
-            "included/history entry decides, editor writes unless hidden/excluded decides. Tie: the real bit table on random sequences (pids up to 2^22, sizes from 0), and the real handler on "
+            "included/history entry decides, editor writes unless hidden/excluded decides; handler level: the program handle_open_exec performs exactly one step of the attribution machine (benign oracles), a failing call never changes the marks (every oracle), so after any sequence of execution events the real handler marks exactly the property's editors. Tie: the real bit table on random sequences (pids up to 2^22, sizes from 0), and the real handler on "
             "exec/write histories with editor scripts, ELF editors with PT_INTERP, their loaders and non-editors.",
-            NOTE + "The pure attribution step is tied to handle_open_exec by the correspondence, not by a refinement lemma.", "induction over event histories; differential correspondence + attribution monitor"),
+            NOTE + "An executed file must not be the journal itself (side condition of the sequence theorem).", "induction over event histories + refinement of the handler program to the pure machine; differential correspondence + attribution monitor"),
     "C12": ("Theorems over the model of main(): for every command line, mount table, ownership and every combination of failing or ineffective stat/setgroups/setgid/setuid, main's actions are a "
             "start-up phase with no handler load, poll or dispatch, followed by an exit or by loading the handler with non-zero uid, non-zero gid and no supplementary groups; started as root any "
             "bad condition means the handler is never loaded. Tie: the real main() with every call scripted, exhaustively over stat outcome x 27 switch behaviours x 5 initial credentials.",
